@@ -47,8 +47,8 @@ CHECKS = {
     "C07": {
         "worlds": [{"name": "store", "variants": {"quick": ["asan", "ship", "alt"], "thorough": ["asan", "ship", "alt"]},
                     "runs": {"quick": 4000, "thorough": 200000}, "secondary_share": 0.5}],
-        "rule": "one run = one seeded Plan: 4..40 reads of stored artifacts (20 artifact types x 11 disk conditions: intact, bit rot, torn between two valid artifacts, short, extended, "
-                "stale, misdirected, zero block, FF block, single-bit rot in the header bytes, single-bit rot in the last byte) each followed by parse, verify and use of whatever parsed (rewind with every combination of optional outputs and a right / wrong nonce; a third of the runs read with the static context wherever the header allows it); allocator faults on the allocating parse path; monitors: "
+        "rule": "one run = one seeded Plan: 4..40 reads of stored artifacts (20 artifact types x 12 disk conditions: intact, bit rot, torn between two valid artifacts, short, extended, "
+                "stale, misdirected, zero block, FF block, single-bit rot in the header bytes, single-bit rot in the last byte, a sweep over all single-bit errors of the first three bytes) each followed by parse, verify and use of whatever parsed (rewind with every combination of optional outputs and a right / wrong nonce; a third of the runs read with the static context wherever the header allows it); allocator faults on the allocating parse path; monitors: "
                 "ASan/UBSan/VERIFY_CHECK (asan variant), callback counters, 0/1 returns, canaries, leak accounting; non-trivial = a disk fault altered the record and the monitors "
                 "were evaluated after it; distinct = distinct Plan hash",
         "components": COMPONENTS,
